@@ -321,7 +321,7 @@ def main(argv=None):
         "rule": meta.RULE,
         "samples": agg["samples"][:12],
         "per_subcheck": agg["per_sub"],
-        "classes": dict(sorted(agg["classes"].items(), key=lambda kv: -kv[1])[:80]),
+        "classes": dict(sorted(agg["classes"].items(), key=lambda kv: -kv[1])[:600]),
         "discarded_out_of_domain": agg["discarded"],
         "excluded_by_signature": dict(agg["excluded"]),
         "known_findings_met": dict(agg["known_hits"]),
